@@ -1066,14 +1066,14 @@ struct Prog {
 
     // ---- layer stack that libtins can parse back (see findings/C04.md for the grammar and why each restriction exists)
     void transport_and_payload(bool v6, bool icmp_ok) {
-        switch (s.weighted({5, 6, 3, 2})) {
+        switch (s.weighted({4, 7, 5, 1})) {
             case 0:
                 add(new TCP((uint16_t)s.edgy(16), (uint16_t)s.edgy(16)), "TCP");
                 if (s.chance(70)) add_raw();
                 break;
             case 1:
                 add(new UDP((uint16_t)s.edgy(16), (uint16_t)s.edgy(16)), "UDP");
-                switch (s.weighted({3, 4, 4, 2, 1, 1})) {
+                switch (s.weighted({2, 5, 5, 4, 1, 1})) {
                     case 0: add_raw(); break;
                     case 1: add(new DHCP(), "DHCP"); break;
                     case 2: add(new DHCPv6(), "DHCPv6"); break;
@@ -1084,14 +1084,14 @@ struct Prog {
                 break;
             case 2:
                 if (!icmp_ok) { add_raw(true); break; }
-                if (v6) add(new ICMPv6(), "ICMPv6"); else add(new ICMP(), "ICMP");
-                if (s.chance(50)) add_raw(true);
+                if (v6) { add(new ICMPv6(), "ICMPv6"); if (s.chance(20)) add_raw(true); }
+                else { add(new ICMP(), "ICMP"); if (s.chance(70)) add_raw(true); }
                 break;
             default: add_raw(true); break;
         }
     }
     void network(bool allow_arp, bool allow_eapol, bool only_ip) {
-        unsigned c = (unsigned)s.weighted({8, 8, 1, 1, 1, 1, 2, 1, 1, 1});
+        unsigned c = (unsigned)s.weighted({7, 10, 1, 1, 1, 1, 2, 1, 1, 1});
         if (only_ip && c > 1 && (c < 3 || c > 7)) c = c & 1;
         if (c == 2 && !allow_arp) c = 0;
         if (c == 8 && !allow_eapol) c = 1;
@@ -1112,7 +1112,7 @@ struct Prog {
         bool ether_like = false;  // the layer above carries an ethertype
         bool closed = false;
         std::string root;
-        switch (s.weighted({6, 1, 1, 1, 2, 3, 5})) {
+        switch (s.weighted({6, 1, 1, 1, 2, 5, 5})) {
             case 0: add(new EthernetII(), "EthernetII"); ether_like = true; break;
             case 1:
                 add(new Dot3(), "Dot3"); add(new LLC(), "LLC");
@@ -1131,7 +1131,7 @@ struct Prog {
             case 5: {
                 bool rt = s.chance(25);
                 if (rt) add(new RadioTap(), "RadioTap");
-                switch (s.range(0, rt ? 16 : 18)) {
+                switch (s.chance(70) ? s.range(0, 9) : s.range(0, rt ? 16 : 18)) {
                     case 0: add(new Dot11Beacon(), "Dot11Beacon"); break;
                     case 1: add(new Dot11ProbeRequest(), "Dot11ProbeRequest"); break;
                     case 2: add(new Dot11ProbeResponse(), "Dot11ProbeResponse"); break;
@@ -1161,7 +1161,7 @@ struct Prog {
             bool vlan_ok = true;
             unsigned nv = (unsigned)s.weighted({7, 2, 1});
             for (unsigned i = 0; i < nv && vlan_ok; ++i) add(new Dot1Q(), "Dot1Q");
-            unsigned mid = (unsigned)s.weighted({12, 1, 2});
+            unsigned mid = (unsigned)s.weighted({12, 1, 3});
             if (mid == 1) {
                 unsigned nm = 1 + (unsigned)s.range(0, 2);
                 for (unsigned i = 0; i < nm; ++i) add(new MPLS(), "MPLS");
@@ -1595,10 +1595,16 @@ struct Prog {
         for (unsigned k = 0; k < steps; ++k) {
             Src st = s.sub();
             size_t i = st.pick(layers.size());
-            unsigned kind = (unsigned)st.weighted({6, 8, 5, 5, 2, 1, 1, 3});
-            if (kind >= 1 && kind <= 4 && model[i].oc == OC_NONE) {
-                if (!optl.empty()) i = optl[st.pick(optl.size())];
-                else kind = 0;
+            unsigned kind = (unsigned)st.weighted({5, 8, 5, 7, 3, 1, 1, 2});
+            if (!listl.empty() && st.chance(25)) kind = 7;
+            if (kind >= 1 && kind <= 4) {
+                if (optl.empty()) kind = 0;
+                else if (model[i].oc == OC_NONE || st.chance(60)) {
+                    // prefer the layer whose class has the larger typed-option vocabulary (IP and TCP are in almost every stack)
+                    std::vector<size_t> w;
+                    for (size_t l : optl) { unsigned k = (model[l].oc == OC_IP || model[l].oc == OC_TCP || model[l].oc == OC_IPV6) ? 1 : 5; w.insert(w.end(), k, l); }
+                    i = w[st.pick(w.size())];
+                }
             }
             if (kind == 7) {
                 if (!listl.empty()) i = listl[st.pick(listl.size())];
